@@ -1,6 +1,23 @@
-"""Executed as a subprocess by c06.py: one real call of decompress_destripe_cbin on a synthesised recording.
+"""Executed as a subprocess by c06.py: real calls of decompress_destripe_cbin on synthesised recordings.
 
-argv[1] = JSON scenario {dir, ns, nbatch, nproc, ns2add, append, reject, k_filter, wrot, sat, seed, compare}
+argv[1] = JSON scenario {dir, ns, nbatch, nproc, ns2add, append, reject, k_filter, wrot, sat, seed, compare} plus the
+          optional state / configuration dimensions (every one defaults to what the check did before they existed):
+   form     "bin" | "cbin"      the input is the flat file or its mtscomp compression (chunks of 0.05 s = 1500 samples, so
+                                every batch is read across several compressed chunks)
+   paths    "path" | "str"      type of the sr_file / output_file arguments
+   outdef   bool                output_file=None: the documented default (.bin next to the compressed input; form "cbin" only)
+   qcdir    bool                output_qc_path = a separate folder
+   stale    False | "longer" | "same" | "ragged" | "failed" | True (= "longer")
+                                what an earlier run left under every name this call writes: nothing; a longer output and
+                                longer quality files; files of exactly the right sizes holding another recording; an
+                                interrupted run (sizes that are no whole number of rows, a cut .npy); the files a real
+                                call leaves that failed inside its workers
+   nc_out   null | int          number of leading columns kept in the output (384: without the sync column)
+   odtype   "int16" | "float32" output sample format
+   hexp     bool                a trace header passed explicitly (h=...), different from the one the file's metadata gives
+   kind     probe kind of vkit.metagen ("3B2" default, "3A", "NP2.1", "NP2.4")
+   prev     null | {ns, nbatch, nproc, ns2add, seed}   append=True onto the output of an earlier call on ANOTHER recording
+   nruns    number of calls when append is set without prev (default 2: the same recording appended to itself)
 stdout  = one JSON line (result) prefixed by 'RESULT '
 """
 import hashlib
@@ -13,14 +30,17 @@ from pathlib import Path
 import numpy as np
 
 T = 1024
+NCV = 384
+FULL_SCALE = {"3A": 512, "3B1": 512, "3B2": 512, "NP2.1": 8192, "NP2.4": 8192}
 
 
-def synth(sc):
-    """3B2 NP1 recording, 384 + 1 channels. Counts stay below the 10-bit full scale (512) and below the slew
-    limit except in the requested saturated stretches. Sync column = sample counter (bit-exact witness of
-    'every sample at its own position')."""
+def synth(sc, sub="in"):
+    """NP recording, 384 + 1 channels. Counts stay far below full scale and below the slew limit except in the
+    requested saturated stretches. Sync column = sample counter starting at a recording-specific value and running
+    through the sign bit (bit-exact witness of 'every sample of THIS recording at its own position')."""
     from vkit import metagen
     rng = np.random.default_rng(sc["seed"])
+    kind = sc.get("kind", "3B2")
     ns = sc["ns"]
     t = np.arange(ns)
     # coherent background (common to all channels) + smaller independent noise, low slew
@@ -34,33 +54,60 @@ def synth(sc):
         d[s - 8:s + 8, c - 2:c + 3] -= (60 * np.hanning(16))[:, None] * np.array([0.3, 0.7, 1, 0.7, 0.3])[None, :]
     d = np.clip(np.round(d), -300, 300)
     for a, b in sc.get("sat", []):
-        d[a:b, :] = 511 * np.where(np.arange(384) % 2 == 0, 1, -1)[None, :]
+        d[a:b, :] = (FULL_SCALE[kind] - 1) * np.where(np.arange(384) % 2 == 0, 1, -1)[None, :]
     data = np.zeros((ns, 385), dtype=np.int16)
     data[:, :384] = d.astype(np.int16)
-    data[:, 384] = (t % 32000).astype(np.int16)
-    txt, info = metagen.make_meta("3B2", ns=ns)
-    b = metagen.write_recording(Path(sc["dir"]) / "in", "rec_g0_t0.imec0", txt, data)
+    start = 32768 - ns // 2 + (int(sc["seed"]) * 7919) % 4001
+    data[:, 384] = ((t + start) % 65536).astype(np.uint16).view(np.int16)
+    nshank = 4 if kind == "NP2.4" else 1
+    txt, info = metagen.make_meta(kind, sites=metagen.dense_sites(kind, 384, nshank), ns=ns)
+    b = metagen.write_recording(Path(sc["dir"]) / sub, "rec_g0_t0.imec0", txt, data)
+    if sc.get("form", "bin") == "cbin":
+        import spikeglx
+        sr = spikeglx.Reader(b)
+        c = sr.compress_file(keep_original=False, chunk_duration=0.05)
+        sr.close()
+        b = Path(c)
     return b, data
 
 
 def wrot_of(sc):
-    """None, a scalar, or "matrix:<seed>" = a full (non-symmetric) whitening matrix close to 0.7 * identity"""
+    """None, a scalar, or "matrix[32|F]:<seed>" = a full (non-symmetric) whitening matrix close to 0.7 * identity
+    (float64 C-ordered; "32": float32; "F": a non-contiguous, read-only view into a larger Fortran-ordered array)"""
     w = sc.get("wrot")
-    if isinstance(w, str) and w.startswith("matrix:"):
+    if isinstance(w, str) and w.startswith("matrix"):
         r = np.random.default_rng(int(w.split(":")[1]))
         m = 0.7 * np.eye(384) + 0.02 * r.standard_normal((384, 384))
+        if w.startswith("matrix32:"):
+            m = m.astype(np.float32)
+        elif w.startswith("matrixF:"):
+            big = np.zeros((2 * 384, 384 + 3), order="F")
+            big[::2, 3:] = m
+            m = big[::2, 3:]
+            m.flags.writeable = False
         return m
     return w
 
 
+def header_of(sc):
+    """explicit trace header: the NP1 layout with the sampling order of the ADCs reversed - not what the file's own
+    metadata gives, so the argument has to be the one that is used"""
+    if not sc.get("hexp"):
+        return None
+    import neuropixel
+    h = dict(neuropixel.trace_header(version=1))
+    h["sample_shift"] = np.ascontiguousarray(h["sample_shift"][::-1])
+    return h
+
+
 def expected_batches(sc, data, labels, sr):
-    """batch-wise in-memory destriping with the documented taper margins -> int16 rows per canonical batch"""
+    """batch-wise in-memory destriping with the documented taper margins -> rows per canonical batch"""
     import scipy.signal
     from ibldsp import voltage
     ns, NB = sc["ns"], sc["nbatch"]
     S = NB - 2 * T
     taper = np.r_[0, scipy.signal.windows.cosine((T - 1) * 2), 0]
-    h = sr.geometry
+    h = header_of(sc) or sr.geometry
     out = np.zeros((ns, 385), dtype=np.float64)
     b = 0
     while True:
@@ -84,6 +131,66 @@ def expected_batches(sc, data, labels, sr):
     return out
 
 
+def lastb_of(ns, nb):
+    return 0 if ns <= nb else -(-(ns - nb) // (nb - 2 * T))
+
+
+def leave_behind(sc, mode, out, outdir, qcdir, rowbytes, odt, binf):
+    """the state an earlier run left under the names this call writes (a non-append call starts from scratch)"""
+    g = np.random.default_rng(sc["seed"] + 7)
+    first = sc.get("prev") or sc
+    ns, pad = first["ns"], first.get("ns2add", 0)
+    nrow = lastb_of(ns, first["nbatch"]) + 1
+    ncol = rowbytes // np.dtype(odt).itemsize
+
+    def content(rows, extra_bytes=0):
+        a = g.integers(-300, 300, rows * ncol).astype(odt).tobytes()
+        return a + b"\x07" * extra_bytes
+
+    dirs = [outdir] + ([qcdir] if qcdir is not None else [])
+    if mode == "longer":
+        out.write_bytes(content(ns + pad + 777))
+        g.random(99 * NCV, dtype=np.float32).tofile(outdir / "ap_rms.bin")
+        g.random(99, dtype=np.float32).tofile(outdir / "ap_time.bin")
+        for q in dirs:
+            np.save(q / "_iblqc_ephysSaturation.samples.npy", np.ones(ns + 501, dtype=bool))
+            np.save(q / "_iblqc_ephysTimeRmsAP.rms.npy", np.ones((99, NCV), dtype=np.float32))
+            np.save(q / "_iblqc_ephysTimeRmsAP.timestamps.npy", np.ones(99, dtype=np.float32))
+    elif mode == "same":
+        # a complete earlier run of another recording of the same length and options: every size is already right
+        out.write_bytes(content(ns + pad))
+        g.random(nrow * NCV, dtype=np.float32).tofile(outdir / "ap_rms.bin")
+        g.random(nrow, dtype=np.float32).tofile(outdir / "ap_time.bin")
+        for q in dirs:
+            np.save(q / "_iblqc_ephysSaturation.samples.npy", np.ones(ns, dtype=bool))
+            np.save(q / "_iblqc_ephysTimeRmsAP.rms.npy", np.ones((nrow, NCV), dtype=np.float32))
+            np.save(q / "_iblqc_ephysTimeRmsAP.timestamps.npy", np.ones(nrow, dtype=np.float32))
+    elif mode == "ragged":
+        # an interrupted earlier run: no file holds a whole number of its records, the .npy files are cut short
+        out.write_bytes(content(max(ns // 3, 1), extra_bytes=rowbytes // 2 + 1))
+        (outdir / "ap_rms.bin").write_bytes(g.random(NCV + 77, dtype=np.float32).tobytes() + b"\x01\x02\x03")
+        (outdir / "ap_time.bin").write_bytes(g.random(2, dtype=np.float32).tobytes() + b"\x01")
+        for q in dirs:
+            for name, arr in (("_iblqc_ephysSaturation.samples.npy", np.ones(ns + 11, dtype=bool)),
+                              ("_iblqc_ephysTimeRmsAP.rms.npy", np.ones((5, NCV), dtype=np.float32)),
+                              ("_iblqc_ephysTimeRmsAP.timestamps.npy", np.ones(5, dtype=np.float32))):
+                np.save(q / name, arr)
+                raw = (q / name).read_bytes()
+                (q / name).write_bytes(raw[:len(raw) // 2 + 1])
+    elif mode == "failed":
+        # a real earlier call that failed inside its workers (a whitening matrix of the wrong size): whatever it left
+        from ibldsp import voltage
+        try:
+            voltage.decompress_destripe_cbin(binf, output_file=out, nbatch=first["nbatch"], nprocesses=first["nproc"],
+                                             ns2add=pad + 3, reject_channels=False, k_filter=False, wrot=np.eye(7))
+            return "the call with a 7 x 7 whitening matrix did not fail"
+        except Exception:  # noqa
+            pass
+    else:
+        raise ValueError(mode)
+    return ""
+
+
 def main():
     sc = json.loads(sys.argv[1])
     res = {"exc": "", "runs": []}
@@ -91,79 +198,132 @@ def main():
         from ibldsp import voltage
         import spikeglx
         binf, data = synth(sc)
-        outdir = Path(sc["dir"]) / "out"
-        outdir.mkdir(parents=True, exist_ok=True)
-        out = outdir / "destriped.bin"
+        as_str = sc.get("paths", "path") == "str"
+        odt = np.dtype(sc.get("odtype", "int16"))
+        nc_out = sc.get("nc_out") or 385
+        rowbytes = nc_out * odt.itemsize
+        if sc.get("outdef"):
+            assert binf.suffix == ".cbin", "output_file=None needs a compressed input"
+            assert not sc.get("prev"), "output_file=None names the output after the input: not with two recordings"
+            out = binf.with_suffix(".bin")
+            outdir = out.parent
+        else:
+            outdir = Path(sc["dir"]) / "out"
+            outdir.mkdir(parents=True, exist_ok=True)
+            out = outdir / "destriped.bin"
+        qcdir = None
+        if sc.get("qcdir"):
+            qcdir = Path(sc["dir"]) / "qc"
+            qcdir.mkdir(parents=True, exist_ok=True)
+        qcout = qcdir if qcdir is not None else outdir
         tracedir = Path(os.environ["IBL_NEUROPIXEL_VERIF_TRACE"])
-        nruns = 2 if sc.get("append") else 1
-        if sc.get("stale"):
-            # leftovers of an earlier, longer run under every name this call writes (a non-append call starts from scratch)
-            g = np.random.default_rng(sc["seed"] + 7)
-            g.integers(-300, 300, ((sc["ns"] + sc.get("ns2add", 0) + 777) * 385), dtype=np.int16).tofile(out)
-            g.random(99 * 384, dtype=np.float32).tofile(outdir / "ap_rms.bin")
-            g.random(99, dtype=np.float32).tofile(outdir / "ap_time.bin")
-            np.save(outdir / "_iblqc_ephysSaturation.samples.npy", np.ones(sc["ns"] + 501, dtype=bool))
-            np.save(outdir / "_iblqc_ephysTimeRmsAP.rms.npy", np.ones((99, 384), dtype=np.float32))
-            np.save(outdir / "_iblqc_ephysTimeRmsAP.timestamps.npy", np.ones(99, dtype=np.float32))
-        for k in range(nruns):
+        # the calls of this scenario: [earlier call on another recording,] the call(s) on the scenario's recording
+        main_call = {"ns": sc["ns"], "nbatch": sc["nbatch"], "nproc": sc["nproc"], "ns2add": sc.get("ns2add", 0),
+                     "binf": binf, "data": data, "own": True}
+        calls = []
+        if sc.get("prev"):
+            pv = sc["prev"]
+            pb, pdata = synth(dict(sc, ns=pv["ns"], seed=pv["seed"], sat=[]), sub="in_prev")
+            calls.append({"ns": pv["ns"], "nbatch": pv["nbatch"], "nproc": pv["nproc"], "ns2add": pv.get("ns2add", 0),
+                          "binf": pb, "data": pdata, "own": False})
+            calls.append(main_call)
+        else:
+            calls = [main_call] * (int(sc.get("nruns", 2)) if sc.get("append") else 1)
+        mode = sc.get("stale")
+        mode = "longer" if mode is True else mode
+        if mode:
+            msg = leave_behind(sc, mode, out, outdir, qcdir, rowbytes, odt, calls[0]["binf"])
+            if msg:
+                raise RuntimeError(msg)
+        wrot = wrot_of(sc)
+        for k, c in enumerate(calls):
             for f in tracedir.glob("*.ndjson"):
                 f.unlink()
-            r = {"exc": ""}
+            r = {"exc": "", "ns": c["ns"], "nbatch": c["nbatch"], "nproc": c["nproc"], "ns2add": c["ns2add"]}
+            kw = {}
+            if sc.get("nc_out"):
+                kw["nc_out"] = sc["nc_out"]
+            if odt != np.dtype("int16"):
+                kw["dtype"] = odt.type
+            if qcdir is not None:
+                kw["output_qc_path"] = qcdir
+            h = header_of(sc)
+            if h is not None:
+                kw["h"] = h
+            a_in = str(c["binf"]) if as_str else c["binf"]
+            a_out = None if sc.get("outdef") else (str(out) if as_str else out)
             try:
-                voltage.decompress_destripe_cbin(binf, output_file=out, nbatch=sc["nbatch"], nprocesses=sc["nproc"],
-                                                 ns2add=sc.get("ns2add", 0), append=(k > 0),
+                voltage.decompress_destripe_cbin(a_in, output_file=a_out, nbatch=c["nbatch"], nprocesses=c["nproc"],
+                                                 ns2add=c["ns2add"], append=(k > 0),
                                                  reject_channels=sc["reject"], k_filter=sc["k_filter"],
-                                                 wrot=wrot_of(sc))
+                                                 wrot=wrot, **kw)
             except BaseException as e:  # noqa
                 r["exc"] = f"{type(e).__name__}: {str(e)[:200]}"
             evs = []
             for f in sorted(tracedir.glob("*.ndjson")):
                 evs += [json.loads(line) for line in f.read_text().splitlines()]
             r["events"] = evs
-            r["size_rows"] = out.stat().st_size // (385 * 2) if out.exists() else -1
-            r["size_exact"] = out.exists() and out.stat().st_size % (385 * 2) == 0
+            r["size_rows"] = out.stat().st_size // rowbytes if out.exists() else -1
+            r["size_exact"] = out.exists() and out.stat().st_size % rowbytes == 0
             res["runs"].append(r)
             if r["exc"]:
                 break
         ok = all(not r["exc"] for r in res["runs"])
         if ok:
-            ns, pad = sc["ns"], sc.get("ns2add", 0)
-            raw = np.fromfile(out, dtype=np.int16)
+            # a missing file is an empty one: judged by the length / entry clauses, not a failure of this script
+            raw = np.fromfile(out, dtype=odt) if out.exists() else np.zeros(0, dtype=odt)
             res["sha1"] = hashlib.sha1(raw.tobytes()).hexdigest()
-            o = raw.reshape(-1, 385)
+            res["size_exact"] = bool(raw.size % nc_out == 0)
+            o = raw[:raw.size - raw.size % nc_out].reshape(-1, nc_out)
             res["rows"] = int(o.shape[0])
-            per = ns + pad
-            sync_bad, pad_bad = [], 0
-            for k in range(nruns):
-                blk = o[k * per:(k + 1) * per]
+            sync_bad, pad_bad, off = [], 0, 0
+            blocks = []
+            for k, c in enumerate(calls):
+                ns, pad = c["ns"], c["ns2add"]
+                blk = o[off:off + ns + pad]
+                blocks.append(blk)
                 if blk.shape[0] < ns:
                     sync_bad.append(-1)
-                    continue
-                bad = np.flatnonzero(blk[:ns, 384] != data[:, 384])
-                sync_bad += [int(x) + k * per for x in bad[:5]]
-                if pad and blk.shape[0] >= per:
-                    pad_bad += int(np.any(blk[ns:per] != blk[ns - 1][None, :]))
-            # append mode: the second run's block must equal the first (same input)
-            res["append_bad"] = int(nruns == 2 and (o.shape[0] != 2 * per or not np.array_equal(o[:per], o[per:])))
+                else:
+                    if nc_out == 385:
+                        bad = np.flatnonzero(blk[:ns, 384] != c["data"][:, 384])
+                        sync_bad += [int(x) + off for x in bad[:5]]
+                    if pad and blk.shape[0] >= ns + pad:
+                        pad_bad += int(np.any(blk[ns:ns + pad] != blk[ns - 1][None, :]))
+                off += ns + pad
+            # append mode: the file is the concatenation of the runs; runs of the same recording give equal blocks
+            res["append_bad"] = int(len(calls) > 1 and (o.shape[0] != off or any(
+                calls[k]["own"] and calls[0]["own"] and not np.array_equal(blocks[0], blocks[k]) for k in range(1, len(calls)))))
             res["sync_bad"] = sync_bad
             res["n_sync_bad"] = len(sync_bad)
             res["pad_bad"] = pad_bad
-            rms = np.load(outdir / "_iblqc_ephysTimeRmsAP.rms.npy")
-            tms = np.load(outdir / "_iblqc_ephysTimeRmsAP.timestamps.npy")
-            sat = np.load(outdir / "_iblqc_ephysSaturation.samples.npy")
+            def load(name):
+                try:
+                    return np.load(qcout / name)
+                except Exception:       # absent, or still the cut leftover of the earlier run  # noqa
+                    return np.zeros(0)
+            rms = load("_iblqc_ephysTimeRmsAP.rms.npy")
+            tms = load("_iblqc_ephysTimeRmsAP.timestamps.npy")
+            sat = load("_iblqc_ephysSaturation.samples.npy")
             res["rms_rows"] = int(rms.shape[0])
             res["time_rows"] = int(tms.shape[0])
             res["rms_finite"] = bool(np.all(np.isfinite(rms)))
             res["sat_len"] = int(sat.shape[0])
             res["sat_count"] = int(sat.sum())
             if sc.get("compare"):
+                # the scenario's own recording: the last block
+                ns = sc["ns"]
+                boff = off - (calls[-1]["ns"] + calls[-1]["ns2add"])
                 sr = spikeglx.Reader(binf)
                 labels = voltage.detect_bad_channels_cbin(sr) if sc["reject"] else None
                 exp = expected_batches(sc, data, labels, sr)
-                m = min(ns, o.shape[0])            # a short output is judged by the length clauses; compare what exists
-                got = o[:m, :384].astype(np.float64)
-                res["max_lsb_diff"] = float(np.max(np.abs(got - np.trunc(exp[:m, :384])))) if m else 0.0
-                res["frac_gt1"] = float(np.mean(np.abs(got - np.trunc(exp[:m, :384])) > 1.0 + 1e-6)) if m else 0.0
+                blk = o[boff:boff + ns]
+                m = min(ns, blk.shape[0])          # a short output is judged by the length clauses; compare what exists
+                got = blk[:m, :384].astype(np.float64)
+                # integer output: the code truncates; a floating point output is compared as it is
+                ref = np.trunc(exp[:m, :384]) if odt.kind == "i" else exp[:m, :384]
+                res["max_lsb_diff"] = float(np.max(np.abs(got - ref))) if m else 0.0
+                res["frac_gt1"] = float(np.mean(np.abs(got - ref) > 1.0 + 1e-6)) if m else 0.0
                 res["out_std"] = float(got.std())
                 sr.close()
     except BaseException as e:  # noqa
